@@ -221,13 +221,20 @@ static int verif_getopt_long(int argc)
 }
 #define getopt_long(argc, argv, s, o, li) verif_getopt_long(argc)
 
-/* strcmp: result unconstrained (the strings are opaque) except that "-" can name standard input
-   at most once per run (stated assumption: reading stdin twice is outside the model) */
+/* strcmp: the real semantics on strings of at most 15 characters (every string a harness supplies
+   -- option arguments, argv words -- lives in a 16-byte NUL-terminated buffer; the program's own
+   literals compared are shorter) */
 static int verif_strcmp(const char *a, const char *b)
 {
-  int r = nondet_int();
-  (void)a; (void)b;
-  return r;
+  unsigned k;
+  for (k = 0; k < 16; ++k)
+    {
+      unsigned char x = (unsigned char)a[k], y = (unsigned char)b[k];
+      if (x != y) return x < y ? -1 : 1;
+      if (x == 0) return 0;
+    }
+  __CPROVER_assert(0, "model: strcmp on strings longer than 15 characters");
+  return 0;
 }
 #define strcmp(a, b) verif_strcmp((a), (b))
 
